@@ -106,6 +106,11 @@ def _returns_in_loops(stmts, top: bool = True) -> bool:
 
 
 def eligible(helper: FuncInfo) -> bool:
+    # a decorated helper is not its body: functools.lru_cache / cache turn it into shared, memoised state
+    for d in getattr(helper.node, "decorator_list", []):
+        dt = norm(d.func) if isinstance(d, ast.Call) else norm(d)
+        if dt.split(".")[-1] not in ("staticmethod", "classmethod"):
+            return False
     a = helper.node.args
     if a.vararg or a.kwarg or a.posonlyargs:
         return False
